@@ -546,10 +546,10 @@ pub fn all_props() -> Vec<PropDef> {
             id: "C15",
             engine: EngineKind::Seq,
             level: "exploration",
-            decisive: &["point", "snapshot", "scan", "reopen", "drop_range"],
+            decisive: &["point", "snapshot", "scan", "reopen", "drop_range", "conc", "deadlock"],
             quick_runs: 4000,
             thorough_runs: 25000,
-            rule: "drop_range with bounds drawn around table edges (incl. empty/inverted) and clear, with snapshots before and after; keys outside R and earlier snapshots must be unchanged; dropped tables must lie wholly inside R judged from their real first/last key; inside R the model re-synchronises from a physical audit. Non-trivial: a drop_range dropped >=1 table or a clear ran.",
+            rule: "drop_range with bounds drawn around table edges (incl. empty/inverted) and clear, with snapshots before and after; keys outside R and earlier snapshots must be unchanged; dropped tables must lie wholly inside R judged from their real first/last key; inside R the model re-synchronises from a physical audit. Every fourth run: clear() on its own thread next to writer, readers, flusher and compactors under the baton scheduler (windows of event numbers decide what a read may return). Non-trivial: a drop_range dropped >=1 table or a clear ran.",
             profile: p_c15,
             nontrivial: nt_c15,
             final_reclaim: false,
